@@ -8,7 +8,6 @@ sys.path.insert(0, os.path.dirname(os.path.abspath(__file__)))
 from rules import props  # noqa: E402
 
 NA = {
-    "C07": "every clause is an equality between computed positions over all texts, ranks and hints (galloping select, offset->node search); no shape-level necessary condition beyond memory safety, which is covered under C19; no sound static rule in reach bounds it",
     "C10": "shortest-round-trip float formatting and literal-preserving decimal rewriting are numerical results over all doubles/literals; no structural clause that would not also fire on correct code (jq mode intentionally prints 17 significant digits)",
     "C14": "equality of loaded trees over a combinatorial YAML presentation space, implemented by a 7000-line context-sensitive parser; no clause of it is visible in code shape (recursion bound and kernels are covered under C19/C16)",
     "C21": "cursor arithmetic over rank/select results on runtime text; the anchored mechanisms (row-end detection, duplicate-stable select) are value computations with no structural invariant to check",
